@@ -174,3 +174,47 @@ def replay_parse_effects(inputs, obl):
             diff = sorted(set(after.items()) ^ set(before.items()))[:3]
             return dict(confirmed=True, detail=f"parsing {t!r} (no evaluation) changed the variables: {diff}")
     return dict(confirmed=False, detail='parsing left the variable state untouched on the probe texts')
+
+
+def replay_reparse(inputs, obl):
+    """parsing is repeatable on one interpreter: a well-formed text parses to a structurally identical program (and evaluates to the
+    same result) before and after many malformed inputs have been rejected by the same interpreter"""
+    from klongpy import KlongInterpreter
+    texts = ['a::(1+(2*3));a', 'f::{(x+1)*(y-1)};f(2;3)', ':[1;(2+(3));4]', '[1 [2 (3)] 4]']
+    bad_inputs = ['((((1+2', '(((1+2)*3)]', '{((x+1)*(y}', '((((((((', ':[((1;2', 'f(((1', '(' * 40 + '1']
+
+    def shape(p):
+        if isinstance(p, list):
+            return [shape(x) for x in p]
+        d = getattr(p, '__dict__', None)
+        if d is not None:
+            return (type(p).__name__, {k: shape(v) for k, v in d.items() if not k.startswith('_')})
+        try:
+            import numpy as np
+            if isinstance(p, np.ndarray):
+                return ('arr', [shape(x) for x in p.tolist()])
+        except Exception:
+            pass
+        return repr(p)
+    k = KlongInterpreter()
+    first = {}
+    for t in texts:
+        try:
+            first[t] = (shape(k.prog(t)[1]), repr(k(t)))
+        except Exception as e:
+            first[t] = ('raised', type(e).__name__)
+    rejected = 0
+    for round_ in range(40):
+        for b in bad_inputs:
+            try:
+                k.prog(b)
+            except Exception:
+                rejected += 1
+        for t in texts:
+            try:
+                now = (shape(k.prog(t)[1]), repr(k(t)))
+            except Exception as e:
+                now = ('raised', type(e).__name__)
+            if now != first[t]:
+                return dict(confirmed=True, detail=f"after {rejected} rejected malformed inputs on the same interpreter, {t!r} parses/evaluates as {str(now)[:120]} - it was {str(first[t])[:120]}")
+    return dict(confirmed=False, detail=f"{len(texts)} texts parse and evaluate identically after {rejected} rejected malformed inputs")
